@@ -283,7 +283,8 @@ def promote_table():
     # the generic promote() of LiteralValue must be  return self.parents[0]
     lv = classes.get('LiteralValue')
     pr = [st for st in lv.body if isinstance(st, ast.FunctionDef) and st.name == 'promote'] if lv else []
-    if not pr or _body_src(pr[0]) != 'return self.parents[0]':
+    # (or a clone of it: Type.clone() builds an instance of the same class - what the table records is the class)
+    if not pr or _body_src(pr[0]) not in ('return self.parents[0]', 'return self.parents[0].clone()'):
         raise Refusal('LiteralValue.promote changed')
     return out
 
